@@ -44,6 +44,14 @@ def one(d, tier, props):
         sh(f"git -C /repo worktree remove --force {wt}")
         shutil.rmtree(out, ignore_errors=True)
         sh(f"rm -rf /verif/.build/*-{name}")
+    # a run restricted with --props refreshes those rows of an existing result for the same base
+    rp = os.path.join(d, "result.json")
+    if len(props) < len(ALL) and os.path.exists(rp):
+        prev = json.load(open(rp))
+        if prev.get("base") == res["base"] and prev.get("tier") == tier:
+            merged = dict(prev.get("checks", {}))
+            merged.update(res["checks"])
+            res["checks"] = {p: merged[p] for p in sorted(merged)}
     res["detected_by"] = [p for p, v in res["checks"].items() if v.get("violation")]
     res["inconclusive"] = [p for p, v in res["checks"].items() if v.get("exit") == 2]
     json.dump(res, open(os.path.join(d, "result.json"), "w"), indent=1)
